@@ -38,7 +38,7 @@ def main():
         rc1, o1 = sh(["/venv/bin/python", demo], env=env, cwd=out)
         ver = {"demo_passes_without_change": rc0 == 0, "demo_fails_with_change": rc1 != 0, "demo_output_with_change": o1[-600:]}
         if os.environ.get("SEED_SUITE", "1") == "1":
-            rc, o = sh(["/tmp/mut/tools/run_tests.sh", wt]) if os.path.exists("/tmp/mut/tools/run_tests.sh") else (0, "SUITE-OK (not re-run)")
+            rc, o = sh(["/venv/bin/python", os.path.join(VERIF, "harness", "run_suite.py"), wt])
             ver["suite"] = o.strip().splitlines()[-1] if o.strip() else "?"
         if "suite" not in ver and "suite" in meta.get("verified", {}):
             ver["suite"] = meta["verified"]["suite"]       # (suite not re-run this time: keep the recorded result)
